@@ -214,7 +214,8 @@ impl ToZinc for Str {
 impl ToZinc for Ref {
     fn to_zinc<W: std::io::Write>(&self, writer: &mut W) -> Result<()> {
         if let Some(dis) = &self.dis {
-            writer.write_fmt(format_args!("@{} \"{}\"", self.value, dis))?
+            writer.write_fmt(format_args!("@{} ", self.value))?;
+            Str::from(dis.as_str()).to_zinc(writer)?
         } else {
             writer.write_fmt(format_args!("@{}", self.value))?
         }
